@@ -7,7 +7,5 @@ cd "$(dirname "$0")/.."
 echo "=== $P-$N ($WTREE/out/$SUBD)"
 WT=$WTREE SUB=$SUBD lib/seedverify.sh $P $KIND
 d=seeded/$P-$N; mkdir -p $d
-cp $WTREE/out/$SUBD/patch.diff $WTREE/out/$SUBD/meta.json $d/
-[ -f $WTREE/out/$SUBD/demo.rs ] && cp $WTREE/out/$SUBD/demo.rs $d/
-[ -f $WTREE/out/$SUBD/apply_demo.py ] && cp $WTREE/out/$SUBD/apply_demo.py $d/
+for f in $WTREE/out/$SUBD/*; do case "$f" in *.log) ;; *) cp "$f" $d/ ;; esac; done
 TAIL=400 lib/mutrun.sh "$PWD/$d/patch.diff" "$P" quick 2>&1 | grep -E "^VIOLATION|signature:|done in|TOOL ERROR" | cut -c1-260 | head -12
